@@ -78,6 +78,14 @@ pub fn judge(case: &Case, findings: &crate::runner::Findings) -> Verdict {
         match parses_plain(&code, lang) {
             Ok(()) => Verdict::Pass,
             Err(e) => {
+                // guard against blaming swc's fixer: if the visitor's output printed *without*
+                // hygiene / fixer (all user parentheses still in place) re-parses, the fixer
+                // broke a valid AST (seen: `(a = ((1, 1) as any)) => a` loses its parentheses)
+                if let Ok(raw_code) = t.print_raw(raw) {
+                    if parses_plain(&raw_code, lang).is_ok() {
+                        return Verdict::Discard("fixer-roundtrip-limitation".into());
+                    }
+                }
                 // guard against blaming codegen: the *input* must survive print + re-parse
                 let inp = t.print_final(&t.input);
                 match inp {
